@@ -793,7 +793,7 @@ pub fn suite_rows_enum(ctx: &mut Ctx, suite: &str) {
 /// the token alphabet of the exhaustive enumeration: one representative per syntactic role
 const ENUM_ATOMS: &[&str] = &[
     "1", "0x1F", "a", "(", ")", ",", ";", "+", "-", "=", "<", "let", "loop", "end", "while", "repeat", "bits", "declare",
-    "resetRandom", "C", "X", "\n", "program", "random",
+    "resetRandom", "C", "X", "\n", "program", "random", "repeat(2)", "bits(2,1)", "(a)", "let a=1;",
 ];
 
 /// every token sequence of length 1..=max_len over `ENUM_ATOMS` behind the header `A B`, exhaustively
@@ -953,7 +953,12 @@ fn mutate(prog: &Prog, r: &mut Prng, style: &Style) -> (String, bool, &'static s
             (plain(&p, r), true, "unknown-function")
         }
         6 => {
-            let (f, n) = *r.pick(&[("ite", 2usize), ("ite", 4), ("random", 2), ("signExt", 1), ("signExt", 3), ("random", 3)]);
+            // any number of arguments but the function's own: small ones, and the counts a growing buffer would land on
+            let (f, own) = *r.pick(&[("ite", 3usize), ("random", 1), ("signExt", 2)]);
+            let mut n = *r.pick(&[0usize, 1, 2, 3, 4, 5, 6, 7, 8, 9, 12, 16, 24, 32, 48, 64, 65]);
+            if n == own {
+                n += 1;
+            }
             p.stmts.insert(0, GStmt::Let("a".into(), GExpr::Call(f.into(), (0..n).map(|i| GExpr::Num(i as i64)).collect())));
             (plain(&p, r), true, "wrong-arity")
         }
@@ -1538,6 +1543,12 @@ pub fn judge_c15_case(ctx: &mut Ctx, suite: &str, cs: u64, case: &Case, src: &st
     // (b) repeated iteration
     let r1 = imp::run_dynamic(case, src);
     let r2 = imp::run_dynamic(case, src);
+    // within one build even the texts of the errors must be the same from run to run (the `#` lines carry them);
+    // panic locations are excluded
+    let with_texts = |l: &[String]| -> Vec<String> { l.iter().filter(|x| !x.contains("panic")).cloned().collect() };
+    if significant(&r1.lines) == significant(&r2.lines) && with_texts(&r1.lines) != with_texts(&r2.lines) {
+        add_finding(ctx, "oracle", suite, cs, format!("iterating the same test twice with identical driver responses gives different error texts: {}", first_diff(&with_texts(&r1.lines), &with_texts(&r2.lines))), text.clone(), &r1.lines, &r2.lines);
+    }
     if significant(&r1.lines) != significant(&r2.lines) {
         add_finding(ctx, "oracle", suite, cs, format!("iterating the same test twice with identical driver responses differs: {}", first_diff(&significant(&r1.lines), &significant(&r2.lines))), text.clone(), &r1.lines, &r2.lines);
     }
